@@ -46,6 +46,9 @@ OWN = [
     # tdm programs declare their own variables and pass ordinary arrays by value under generated names A0, A1, ...
     ["name g1", "version 1.0", "type tdm (copies=%(i)s)", "", "float array A1 =", "    %(f)s, %(f)s", "float array A2 =", "    %(f)s, %(f)s", "Gate(A1) | %(m)s", "Gate(A2, k=A1) | %(m)s"],
     ["name g2", "version 1.0", "type tdm", "", "int array A0 =", "    %(i)s", "float array A3 =", "    %(f)s", "float array p0 =", "    %(f)s, %(f)s", "Gate(A3, p0) | %(m)s", "Gate(A0, A3, k=A0) | %(m)s"],
+    ["name g3", "version 1.0", "type tdm", "", "float array A0 =", "    %(f)s, %(f)s", "float array B =", "    %(f)s, %(f)s", "Gate(k=B) | %(m)s", "Gate(B, k=A0) | %(m)s"],
+    # negated powers whose base is a function call / bracket with a product or quotient inside
+    ["name x7", "version 1.0", "", "MeasureX | 0", "MeasureX | 1", "Zgate(0-sin(q0*q1)**2, -1*sin(q0/2)**2) | %(m)s", "Rgate(-1*cos({a}*{b})**2, 0-({a}*{b}+1)**2, k=-(exp({a}/{b})**2)*{b}) | %(m)s"],
     # expressions whose SymPy printing needs care (unary minus vs power, inverse functions, reciprocal)
     ["name x1", "version 1.0", "", "Rgate(-({a}**2), ({a}+1)**2) | %(m)s"],
     ["name x2", "version 1.0", "", "Rgate(arcsin({a})+arctanh({b}), k=arccos({a})) | %(m)s"],
